@@ -320,8 +320,12 @@ def mon_C07(case, toks):
             elif a == "F":
                 errs[c] = v
         ret = p["ret"]
-        if ret is None or ret[0] == "X":
+        if ret is None:
             return None
+        if ret[0] == "X":
+            if any(a == "X" for (_, _, a, _) in p["cps"]):
+                return None           # a child's panic propagates
+            return "race_ok unwound in a poll in which no child panicked" + (" (racing zero futures must yield the empty aggregate error)" if n == 0 else "")
         if won is not None:
             if not (ret[0] == "O" and ret[2] == [won[1]]):
                 return f"child {won[0]} succeeded with {won[1]} in this poll but race_ok returned {ret[0]}{ret[2]}"
